@@ -252,7 +252,16 @@ type Decl struct {
 	Sort    string
 	Def     *Term  // name = Def (total definition), nil for havoc
 	Assumes []Term // type invariants / axioms attached to this symbol
+	Quant   *QuantInfo
 	seq     int
+}
+
+// QuantInfo: a Boolean symbol standing for a top-level quantified formula.
+type QuantInfo struct {
+	Exists bool
+	Var    string // unique bound variable name
+	Sort   string
+	Body   Term
 }
 
 type Ctx struct {
@@ -260,6 +269,61 @@ type Ctx struct {
 	n        int
 	Preamble []string // raw SMT-LIB (spec functions)
 	PreNames map[string]bool
+	InstTerms []Term        // ground terms used to instantiate quantifiers in instantiation mode
+	instSeen  map[string]bool
+}
+
+// AddInst registers a ground instantiation term.
+func (c *Ctx) AddInst(t Term) {
+	if c.instSeen == nil {
+		c.instSeen = map[string]bool{}
+	}
+	if c.instSeen[t.T] || len(c.InstTerms) > 400 {
+		return
+	}
+	c.instSeen[t.T] = true
+	c.InstTerms = append(c.InstTerms, t)
+}
+
+// Quant declares a Boolean symbol equivalent to (forall/exists ((v sort)) body).
+func (c *Ctx) Quant(exists bool, v, sortS string, body Term) Term {
+	c.n++
+	name := fmt.Sprintf("Q!%d", c.n)
+	c.decls[name] = &Decl{Name: name, Sort: SBool, Quant: &QuantInfo{Exists: exists, Var: v, Sort: sortS, Body: body}, seq: c.n}
+	return Term{SBool, name}
+}
+
+// BoundVar returns a fresh unique bound-variable name.
+func (c *Ctx) BoundVar(hint string) string {
+	c.n++
+	return fmt.Sprintf("%s!q%d", sanitize(hint), c.n)
+}
+
+func substToken(s, from, to string) string {
+	var sb strings.Builder
+	start := -1
+	flush := func(end int) {
+		if start >= 0 {
+			tok := s[start:end]
+			if tok == from {
+				sb.WriteString(to)
+			} else {
+				sb.WriteString(tok)
+			}
+			start = -1
+		}
+	}
+	for i := 0; i < len(s); i++ {
+		ch := s[i]
+		if ch == '(' || ch == ')' || ch == ' ' || ch == '\n' || ch == '\t' {
+			flush(i)
+			sb.WriteByte(ch)
+		} else if start < 0 {
+			start = i
+		}
+	}
+	flush(len(s))
+	return sb.String()
 }
 
 func NewCtx() *Ctx { return &Ctx{decls: map[string]*Decl{}, PreNames: map[string]bool{}} }
@@ -328,7 +392,11 @@ func tokens(s string, f func(string)) {
 }
 
 // Script builds a query: sliced declarations + assertions of `asserts`.
-func (c *Ctx) Script(logic string, asserts []Term, getModel []string) string {
+// inst=false: quantified symbols are defined by real quantifiers.
+// inst=true: every quantified symbol Q is replaced by sound consequences of its definition:
+//   forall: Q => body[t] for every instantiation term t, and !Q => !body[sk] for a fresh skolem sk
+//   (dually for exists). An unsat answer is therefore still valid; a sat answer may be spurious.
+func (c *Ctx) Script(logic string, asserts []Term, inst bool) (string, bool) {
 	need := map[string]bool{}
 	var stack []string
 	visit := func(s string) {
@@ -342,15 +410,79 @@ func (c *Ctx) Script(logic string, asserts []Term, getModel []string) string {
 	for _, a := range asserts {
 		visit(a.T)
 	}
-	for len(stack) > 0 {
-		n := stack[len(stack)-1]
-		stack = stack[:len(stack)-1]
-		d := c.decls[n]
-		if d.Def != nil {
-			visit(d.Def.T)
+	var quants []*Decl
+	var instAsserts []string
+	drain := func() {
+		for len(stack) > 0 {
+			n := stack[len(stack)-1]
+			stack = stack[:len(stack)-1]
+			d := c.decls[n]
+			if d.Def != nil {
+				visit(d.Def.T)
+			}
+			for _, a := range d.Assumes {
+				visit(a.T)
+			}
+			if d.Quant != nil {
+				quants = append(quants, d)
+				if !inst {
+					visit(d.Quant.Body.T)
+				}
+			}
 		}
-		for _, a := range d.Assumes {
-			visit(a.T)
+	}
+	drain()
+	if inst && len(quants) > 0 {
+		// iterate: instantiating bodies may pull in further quantified symbols
+		done := map[string]bool{}
+		for round := 0; round < 4; round++ {
+			var pending []*Decl
+			for _, q := range quants {
+				if !done[q.Name] {
+					pending = append(pending, q)
+				}
+			}
+			if len(pending) == 0 {
+				break
+			}
+			for _, q := range pending {
+				done[q.Name] = true
+				qi := q.Quant
+				sk := q.Name + "!sk"
+				var terms []string
+				for _, t := range c.InstTerms {
+					if t.S == qi.Sort {
+						terms = append(terms, t.T)
+					}
+				}
+				for _, q2 := range quants {
+					if q2.Quant.Sort == qi.Sort {
+						terms = append(terms, q2.Name+"!sk")
+					}
+				}
+				pos, neg := q.Name, "(not "+q.Name+")"
+				if qi.Exists {
+					pos, neg = neg, pos
+				}
+				// pos => body[t] (forall) ; for exists: !Q => !body[t]
+				for _, t := range terms {
+					b := substToken(qi.Body.T, qi.Var, t)
+					if qi.Exists {
+						instAsserts = append(instAsserts, "(=> "+pos+" (not "+b+"))")
+					} else {
+						instAsserts = append(instAsserts, "(=> "+pos+" "+b+")")
+					}
+					visit(b)
+				}
+				bsk := substToken(qi.Body.T, qi.Var, sk)
+				if qi.Exists {
+					instAsserts = append(instAsserts, "(=> "+neg+" "+bsk+")")
+				} else {
+					instAsserts = append(instAsserts, "(=> "+neg+" (not "+bsk+"))")
+				}
+				visit(bsk)
+			}
+			drain()
 		}
 	}
 	var ds []*Decl
@@ -366,27 +498,45 @@ func (c *Ctx) Script(logic string, asserts []Term, getModel []string) string {
 		sb.WriteString(p)
 		sb.WriteByte('\n')
 	}
+	// skolems first (they may be referenced by instantiated bodies of earlier symbols)
+	if inst {
+		for _, q := range quants {
+			fmt.Fprintf(&sb, "(declare-const %s!sk %s)\n", q.Name, q.Quant.Sort)
+		}
+		// quantified symbols are plain Booleans, declared up front (bodies of other symbols may mention them)
+		for _, q := range quants {
+			fmt.Fprintf(&sb, "(declare-const %s Bool)\n", q.Name)
+		}
+	}
 	for _, d := range ds {
-		if d.Def != nil {
+		switch {
+		case d.Quant != nil:
+			if !inst {
+				kw := "forall"
+				if d.Quant.Exists {
+					kw = "exists"
+				}
+				fmt.Fprintf(&sb, "(define-fun %s () Bool (%s ((%s %s)) %s))\n", d.Name, kw, d.Quant.Var, d.Quant.Sort, d.Quant.Body.T)
+			}
+		case d.Def != nil:
 			fmt.Fprintf(&sb, "(define-fun %s () %s %s)\n", d.Name, d.Sort, d.Def.T)
-		} else {
+		default:
 			fmt.Fprintf(&sb, "(declare-const %s %s)\n", d.Name, d.Sort)
 		}
-		// assumptions must come after all symbols they mention are declared; emit later
 	}
 	for _, d := range ds {
 		for _, a := range d.Assumes {
 			fmt.Fprintf(&sb, "(assert %s)\n", a.T)
 		}
 	}
+	for _, a := range instAsserts {
+		fmt.Fprintf(&sb, "(assert %s)\n", a)
+	}
 	for _, a := range asserts {
 		fmt.Fprintf(&sb, "(assert %s)\n", a.T)
 	}
 	sb.WriteString("(check-sat)\n")
-	if len(getModel) > 0 {
-		sb.WriteString("(get-value (" + strings.Join(getModel, " ") + "))\n")
-	}
-	return sb.String()
+	return sb.String(), len(quants) > 0
 }
 
 // HasQuant reports whether a script text uses quantifiers.
